@@ -131,32 +131,55 @@ func (c *Ctx) fiftHex() {
 func (c *Ctx) hexDigits() {
 	const R = "E11.tables"
 	f := c.mustFn(R, "boc", "hexToInt")
-	if f == nil || len(f.Params) != 1 {
+	if f == nil {
 		return
 	}
-	p := f.Params[0]
+	// every digit value computed: c - K1 (+ K2) on a byte c, under the range guards of c that hold where it is
+	// computed (the function may be the helper itself or the parser it was folded into)
+	type digitExpr struct {
+		p      ssa.Value
+		k1, k2 int64
+		blk    *ssa.BasicBlock
+	}
+	var exprs []digitExpr
+	consumed := map[ssa.Value]bool{}
+	isByte := func(v ssa.Value) bool {
+		bt, ok := v.Type().Underlying().(*types.Basic)
+		return ok && (bt.Kind() == types.Uint8 || bt.Kind() == types.Int32 || bt.Kind() == types.Uint16 || bt.Kind() == types.Int)
+	}
+	allInstrs(f, func(b *ssa.BasicBlock, in ssa.Instruction) {
+		bo, ok := in.(*ssa.BinOp)
+		if !ok || bo.Op != token.ADD {
+			return
+		}
+		k2, ok := constInt(bo.Y)
+		if !ok {
+			return
+		}
+		if in2, ok := bo.X.(*ssa.BinOp); ok && in2.Op == token.SUB {
+			if k1, ok := constInt(in2.Y); ok && isByte(in2.X) && k1 >= '0' {
+				consumed[in2] = true
+				exprs = append(exprs, digitExpr{in2.X, k1, k2, b})
+			}
+		}
+	})
+	allInstrs(f, func(b *ssa.BasicBlock, in ssa.Instruction) {
+		bo, ok := in.(*ssa.BinOp)
+		if !ok || bo.Op != token.SUB || consumed[bo] {
+			return
+		}
+		if k1, ok := constInt(bo.Y); ok && isByte(bo.X) && k1 >= '0' {
+			if _, isLen := stripConv(bo.X).(*ssa.Call); isLen {
+				return
+			}
+			exprs = append(exprs, digitExpr{bo.X, k1, 0, b})
+		}
+	})
 	var got []string
-	for _, r := range returnsOf(f) {
-		if !isNilConst(retVal(r, 1)) {
-			continue
-		}
-		// value: p - K1 (+ K2)
-		v := stripConv(retVal(r, 0))
-		var k1, k2 int64
-		okv := false
-		if bo, ok := v.(*ssa.BinOp); ok && bo.Op == token.ADD {
-			if kk, ok := constInt(bo.Y); ok {
-				k2 = kk
-				v = bo.X
-			}
-		}
-		if bo, ok := v.(*ssa.BinOp); ok && bo.Op == token.SUB && bo.X == ssa.Value(p) {
-			if kk, ok := constInt(bo.Y); ok {
-				k1, okv = kk, true
-			}
-		}
+	for _, e := range exprs {
+		p, k1, k2, okv := e.p, e.k1, e.k2, true
 		lo, hi := int64(-1), int64(-1)
-		for _, ft := range factsAt(f, r.Block()) {
+		for _, ft := range factsAt(f, e.blk) {
 			bo, ok := ft.Cond.(*ssa.BinOp)
 			if !ok {
 				continue
